@@ -29,6 +29,7 @@ type Ctx struct {
 	Lex  *LexTable
 
 	modFuncs []*ssa.Function
+	mfx      *mutfx
 }
 
 var checks = map[string]*propCheck{}
@@ -56,6 +57,42 @@ func main() {
 		if err != nil {
 			fmt.Println("FATAL", err)
 			os.Exit(2)
+		}
+		if strings.HasPrefix(*dump, "fx") {
+			c := &Ctx{P: p, R: newReport("dump", "quick", 0)}
+			m := newMutFX(c)
+			m.run()
+			fmt.Println("rounds:", c.R.Analysed["mutfx_rounds"], "functions:", len(m.funcs))
+			filter := strings.TrimPrefix(*dump, "fx:")
+			for _, fn := range m.funcs {
+				if filter != "fx" && !strings.Contains(funcKey(fn), filter) {
+					continue
+				}
+				m.dumpSummary(fn)
+			}
+			return
+		}
+		if *dump == "x1" {
+			c := &Ctx{P: p, R: newReport("dump", "quick", 0)}
+			ruleX1(c, "X1")
+			for _, o := range c.R.obligs {
+				if o.Verdict != "discharged" {
+					fmt.Printf("%s %s\n     at %s: %s\n     via %s\n", o.Verdict, o.Key, o.Pos, o.Reason, o.Path)
+				}
+			}
+			n := 0
+			for _, o := range c.R.obligs {
+				if o.Verdict == "discharged" {
+					n++
+				}
+			}
+			fmt.Println("discharged:", n, "fatal:", c.R.fatal)
+			return
+		}
+		if *dump == "ro" {
+			c := &Ctx{P: p, R: newReport("dump", "quick", 0)}
+			dumpCensus(c)
+			return
 		}
 		if *dump == "errs" {
 			c := &Ctx{P: p, R: newReport("dump", "quick", 0)}
